@@ -33,6 +33,7 @@ class Ctx:
 
     def __init__(self, seed: int, fault_at: Optional[int] = None, hot: bool = False, fault_kind: Optional[str] = None):
         self.fault_cls = FaultStop if fault_kind == "stop" else Fault
+        self.fault_raised = False
         self.obs_raise_at: Optional[int] = None    # the k-th invocation of an observing callback (do_action terminal callbacks, finally action) raises
         self.nobs = 0
         from reactivex.testing import TestScheduler
@@ -60,6 +61,7 @@ class Ctx:
             if not obs:
                 self.ncb += 1
                 if self.fault_at is not None and self.ncb == self.fault_at:
+                    self.fault_raised = True
                     self.ev(e="cb", r=True, o=False)
                     raise self.fault_cls(f"injected at callback #{self.ncb}")
             self.ev(e="cb", r=False, o=obs)
@@ -303,6 +305,8 @@ def _install():
     _reg("window_toggle", "any", lambda c: A(c.trigger(), c.cb(c.memo(lambda v: c.trigger()))), "obs_out")
     _reg("buffer_toggle", "any", lambda c: A(c.trigger(), c.cb(c.memo(lambda v: c.trigger()))))
     _reg("group_by", "any", lambda c: A(c.cb(lambda v: _i(v)), c.cb(lambda v: (v,)) if c.coin() else None), "obs_out")
+    _reg("group_by_subject_mapper", "any", lambda c: A(c.cb(lambda v: _i(v)), None, c.cb(lambda: __import__("reactivex").subject.Subject())),
+         "obs_out", real="group_by")      # the group factory is a user function too
     _reg("group_by_until", "any", lambda c: A(c.cb(lambda v: _i(v)), None, c.cb(c.memo(lambda g: c.trigger()))), "obs_out")
     # the duration of a group derived from the group itself - what the duration_mapper(group) signature exists for
     def _gbu_self(c):
